@@ -13,7 +13,7 @@ PROP = 'C07'
 MANIFEST = dict(
     text="Symbolic end-to-end check: a real AbstractClient / AbstractAsyncClient subclass whose transport hands the wire document to a real Dispatcher / AsyncDispatcher (all four pairings) over the value-level wire model. "
          "Concrete skeleton: call notation (call, client(...), proxy attribute, hand-built Request + send, notify, batch.add/notify...call(), batch(...) chaining, batch[...], batch.proxy), argument shape, method behaviour "
-         "(returns f(args) / raises a registered typed error / raises a protocol error with a symbolic code / raises an arbitrary exception), id generator, strict flag, batch composition of 1..3 calls / notifications. "
+         "(returns f(args) / raises a registered typed error / raises a protocol error with a symbolic code / raises ValueError, TypeError or KeyError from its body; on the asynchronous dispatcher the methods are coroutines of which the n-th one invoked for a document suspends 3-n times before its body), id generator, strict flag, batch composition of 1..3 calls / notifications. "
          "Symbolic: argument values, sequential(start, step), the integers / characters returned by the randomness stub of randint / random, error code and data. "
          "Oracle: exactly one well-formed request document per send (ids present and pairwise distinct for calls, absent for notifications, params as given); the caller obtains the value of the direct Python invocation (JSON-normalised) "
          "or an exception of the class registered for the code with equal code / message / data; notifications return None, raise nothing, run the method once; every notation is compared with the hand-built-request notation in the same path.",
